@@ -522,16 +522,26 @@ def doc(T: dict[str, str] | None = None) -> dict:
     g = lambda k: T.get(k, "zq" + k)  # noqa: E731
     return {
         "openapi": "3.0.3",
-        "info": {"title": g("title"), "version": "1.0", "description": g("infodesc")},
+        "info": {"title": g("title"), "version": "1.0", "description": g("infodesc"), "termsOfService": g("tos"),
+                 "contact": {"name": g("contact"), "url": "https://e.test/", "email": "a@e.test"},
+                 "license": {"name": g("license")}},
+        "servers": [{"url": "https://api.e.test/v1", "description": g("serverdesc")}],
+        "externalDocs": {"description": g("extdocs"), "url": "https://e.test/docs"},
+        "tags": [{"name": "zqtag", "description": g("tagdesc"), "externalDocs": {"description": g("tagextdocs"), "url": "https://e.test/t"}}],
         "paths": {"/items/{id}": {
             "get": {"operationId": "get_item", "tags": [g("tag")], "summary": g("summary"), "description": g("opdesc"),
                     "parameters": [
                         {"name": "id", "in": "path", "required": True, "schema": {"type": "string"}, "description": g("pdesc")},
-                        {"name": g("qname"), "in": "query", "required": False, "schema": {"type": "string", "default": g("pdefault")}},
-                        {"name": g("hname"), "in": "header", "required": True, "schema": {"type": "string"}}],
+                        {"name": g("qname"), "in": "query", "required": False, "description": g("qdesc"), "example": g("pexample"),
+                         "schema": {"type": "string", "default": g("pdefault")}},
+                        {"name": g("hname"), "in": "header", "required": True, "description": g("hdesc"), "schema": {"type": "string"}}],
+                    "externalDocs": {"description": g("opextdocs"), "url": "https://e.test/o"},
                     "responses": {"200": {"description": g("respdesc"),
                                           "content": {"application/json": {"schema": {"$ref": "#/components/schemas/Item"}}}},
-                                  "404": {"description": g("errdesc")}}},
+                                  "2XX": {"description": g("rangedesc")},
+                                  "404": {"description": g("errdesc")},
+                                  "default": {"description": g("defaultdesc"),
+                                              "content": {"application/json": {"schema": {"$ref": "#/components/schemas/Item"}}}}}},
             "post": {"operationId": "put_item", "tags": [g("tag")], "summary": g("summary2"),
                      "parameters": [{"name": "id", "in": "path", "required": True, "schema": {"type": "string"}}],
                      "requestBody": {"description": g("bodydesc"), "required": True, "content": {
@@ -553,10 +563,11 @@ def doc(T: dict[str, str] | None = None) -> dict:
                     "parameters": [{"name": "id", "in": "path", "required": True, "schema": {"type": "string"}}],
                     "requestBody": {"description": g("bodydesc"), "required": True, "content": {
                         "application/json": {"schema": {"$ref": "#/components/schemas/Item"}}}},
-                    "responses": {"204": {"description": "ok"}}}}},
+                    "responses": {"204": {"description": g("nocontentdesc")}}}}},
         "components": {"schemas": {
-            "Item": {"type": "object", "description": g("schemadesc"), "required": ["name"], "properties": {
-                "name": {"type": "string", "description": g("propdesc")},
+            "Item": {"type": "object", "description": g("schemadesc"), "required": ["name"], "example": {"name": g("schemaexample")},
+                     "externalDocs": {"description": g("schemaextdocs"), "url": "https://e.test/s"}, "x-note": g("xfield"), "properties": {
+                "name": {"type": "string", "description": g("propdesc"), "example": g("propexample")},
                 g("propname"): {"type": "string"},
                 "note": {"type": "string", "default": g("default"), "description": g("propdesc2")},
                 "d_int": {"type": "integer", "default": g("dint")},
@@ -595,6 +606,26 @@ POSITIONS: dict[str, dict] = {
     "pdesc":     {"value": False, "sites": [12]},
     "qname":     {"value": True, "sites": [5, 12]},
     "hname":     {"value": True, "sites": [6, 12]},
+    # every response description (per status code, the 2XX range, default, 204) and the other free-text fields of a document:
+    # positions with no modelled site are predicted inert, so ANY effect of their text on the emitted files is a VIOLATION
+    "rangedesc": {"value": False, "sites": []},
+    "defaultdesc": {"value": False, "sites": []},
+    "nocontentdesc": {"value": False, "sites": []},
+    "qdesc":     {"value": False, "sites": [12]},
+    "hdesc":     {"value": False, "sites": [12]},
+    "pexample":  {"value": False, "sites": []},
+    "propexample": {"value": False, "sites": []},
+    "schemaexample": {"value": False, "sites": []},
+    "xfield":    {"value": False, "sites": []},
+    "tagdesc":   {"value": False, "sites": []},
+    "tagextdocs": {"value": False, "sites": []},
+    "extdocs":   {"value": False, "sites": []},
+    "opextdocs": {"value": False, "sites": []},
+    "schemaextdocs": {"value": False, "sites": []},
+    "serverdesc": {"value": False, "sites": []},
+    "contact":   {"value": False, "sites": []},
+    "license":   {"value": False, "sites": []},
+    "tos":       {"value": False, "sites": []},
     "respdesc":  {"value": False, "sites": [12]},
     "errdesc":   {"value": False, "sites": [12]},
     "summary2":  {"value": False, "sites": [14]},
@@ -897,10 +928,11 @@ def main(chk: Check, replay: dict | None = None) -> int:
     else:
         for i, pos in enumerate(positions):
             # CR and LF are harmless inside docstrings but break any comment or "…" literal: they expose a NEW raw site
-            for p in ('a\rb', 'a\nb'):
+            # CR/LF and the other str.splitlines() break characters: harmless in docstrings and escaped literals, fatal in a
+            # comment or raw literal (endpoint code is re-split by write_block): they expose a NEW unescaped site
+            for p in ('a\rb', 'a\nb', 'a\u2028b\x0cc\x85d\x1ce'):
                 pipe_inputs.append((pos, payload_for(pos, p)))
-            for j in range(2):
-                pipe_inputs.append((pos, payload_for(pos, key_payloads[(i * 2 + j) % len(key_payloads)])))
+            pipe_inputs.append((pos, payload_for(pos, key_payloads[i % len(key_payloads)])))
             pipe_inputs.append((pos, payload_for(pos, rng.choice(HOSTILE) if i % 2 else rand_text(rng, 1, 8))))
     # \N{name} escapes: the lexer model answers "error" by design (no Unicode name table), CPython accepts valid names;
     # such payloads are exercised at site level (string equality) but not in the predicted-verdict relation
